@@ -32,6 +32,7 @@ struct Arena {
 	std::vector<ArenaBlock> blocks;
 	uint64_t nallocs = 0, live_bytes = 0, live_blocks = 0, peak_live = 0;
 	std::set<uint64_t> fail_at;     // 1-based allocation indices that return NULL
+	std::set<uint64_t> stack_at;    // debugging: print the daemon's stack at these allocations
 	uint64_t fill_mode = 0, fill_state = 1;
 	bool exhausted = false;
 	void init();
@@ -56,6 +57,7 @@ struct KernelHooks {
 	virtual void hygiene(const std::string &rule, const std::string &detail) = 0;
 	virtual void on_log(int pri, const std::string &line) = 0;
 	virtual void on_file_op(const char *op, long result) = 0;
+	virtual void on_alloc_fail(uint64_t index) { (void)index; }
 };
 extern KernelHooks *g_hooks;
 
